@@ -30,6 +30,11 @@ def wide_schema():
                     [F("g_msg", 40, "message", "oneof", group="g", msg="Inner"), F("g_ts", 41, "timestamp", "oneof", group="g"),
                      F("g_dur", 42, "duration", "oneof", group="g"), F("h_a", 50, "int32", "oneof", group="h"), F("h_b", 51, "string", "oneof", group="h"),
                      F("h_c", 52, "message", "oneof", group="h", msg="Inner"), F("plain", 60, "int32")]
+    # the same oneofs declared the way the plugin's pydantic flavour declares members (optional=True, default None)
+    types["TOneP"] = [dict(f, optmember=(f["card"] == "oneof")) for f in types["TOne"]]
+    # only scalars, some of them repeated: the lists are the only thing that can change without an assignment to the message
+    types["TScal"] = [F("a", 1, "int32"), F("r", 2, "sint32", "repeated"), F("rs", 3, "string", "repeated"), F("e", 4, "enum", enum="E"),
+                      F("name", 5, "string"), F("rb", 6, "bytes", "repeated"), F("rd", 7, "double", "repeated"), F("re", 8, "enum", "repeated", enum="E")]
     n = iter(range(1, 10000))
     types["TMapV"] = [F("mv_" + k, next(n), "map", "map", kkind="string", vkind=k, enum="E" if k == "enum" else "") for k in VALUE_KINDS] + \
                      [F("mv_msg", 40, "map", "map", kkind="string", vkind="message", msg="Inner")]
